@@ -624,16 +624,110 @@ theorem evRead_le (s : St C) : FlagsLe s (evRead s).1 := by
     · exact h.trans ⟨by simp [disconnect], by simp [disconnect]⟩
     · exact h.trans ⟨by simp [disconnect], by simp [disconnect]⟩
 
-theorem readLoop_le : ∀ (fuel : Nat) (s : St C) (acc : Bytes) (rets : List Int),
-    FlagsLe s (readLoop fuel s acc rets).1 := by
+/-! the send half never touches the read side -/
+
+/-- the fields of the read path -/
+def rd (s : St C) : C.I × Option Bytes × Bytes × Bool × Bool :=
+  (s.zi, s.inPend, s.inq, s.inEof, s.readDone)
+
+theorem lowerWrite_rd (s : St C) (b : Bytes) : rd (lowerWrite s b).1 = rd s := by
+  unfold lowerWrite
+  simp only
+  split <;> (split <;> rfl)
+
+theorem tryWrite_rd (s : St C) (f : Bool) : rd (tryWrite s f).1 = rd s := by
+  unfold tryWrite
+  simp only
+  split
+  · split
+    · exact lowerWrite_rd s s.out
+    · exact lowerWrite_rd s s.out
+  · rfl
+
+theorem cwLoop_rd : ∀ (fuel : Nat) (s : St C) (inp : Bytes) (k : Nat) (fl : Int),
+    rd (cwLoop fuel s inp k fl).st = rd s := by
+  intro fuel
+  induction fuel with
+  | zero => intro s inp k fl; rfl
+  | succ fuel ih =>
+    intro s inp k fl
+    have ht := tryWrite_rd s false
+    unfold cwLoop
+    simp only
+    split
+    · exact ht
+    · split
+      · exact ht
+      · split
+        · exact ht
+        · split
+          · exact ht
+          · split
+            · exact ht
+            · exact (ih _ _ _ _).trans ht
+
+theorem compressionWrite_rd (fuel : Nat) (s : St C) (inp : Bytes) (fl : Int) :
+    rd (compressionWrite fuel s inp fl).1 = rd s := by
+  have h := cwLoop_rd fuel s inp 0 fl
+  unfold compressionWrite
+  split
+  · rename_i s' r heq; rw [heq] at h; exact h
+  · rename_i s' heq; rw [heq] at h; exact h
+  · rename_i s' r heq; rw [heq] at h
+    split
+    · exact (tryWrite_rd _ _).trans h
+    · exact h
+
+theorem upperWrite_rd (fuel : Nat) (s : St C) (inp : Bytes) : rd (upperWrite fuel s inp).1 = rd s := by
+  have h := compressionWrite_rd fuel s inp Gen.Zl.compressionWriteMode
+  unfold upperWrite
+  simp only
+  split
+  · exact h
+  · exact h
+
+theorem sendLoop_rd (fuel : Nat) : ∀ (q : List (Bytes × Nat)) (s : St C), rd (sendLoop fuel s q).1 = rd s := by
+  intro q
+  induction q with
+  | nil => intro s; rfl
+  | cons e rest ih =>
+    intro s
+    obtain ⟨d, w⟩ := e
+    unfold sendLoop
+    simp only
+    split
+    · exact upperWrite_rd _ _ _
+    · exact (ih _).trans (upperWrite_rd _ _ _)
+
+theorem runOnceSend_rd (fuel : Nat) (s : St C) : rd (runOnceSend fuel s) = rd s := by
+  unfold runOnceSend
+  split
+  · rfl
+  · simp only
+    have h1 := sendLoop_rd fuel s.queue s
+    have h2 : rd { (sendLoop fuel s s.queue).1 with queue := (sendLoop fuel s s.queue).2 } = rd s := h1
+    have h3 : rd (compressionFlush fuel
+        { (sendLoop fuel s s.queue).1 with queue := (sendLoop fuel s s.queue).2 }).1 = rd s :=
+      (compressionWrite_rd fuel _ [] _).trans h2
+    split
+    · exact h3
+    · exact h3
+
+theorem readLoop_le (wfuel : Nat) : ∀ (fuel : Nat) (s : St C) (acc : Bytes) (rets : List Int),
+    FlagsLe s (readLoop wfuel fuel s acc rets).1 := by
   intro fuel
   induction fuel with
   | zero => intro s acc rets; exact ⟨by simp [readLoop], by simp [readLoop]⟩
   | succ fuel ih =>
     intro s acc rets
+    have hs : FlagsLe s (runOnceSend wfuel { s with sched := [] }) :=
+      FlagsLe.trans (t := { s with sched := [] }) ⟨by simp, by simp⟩ (runOnceSend_le _ _)
     unfold readLoop
     split
-    · exact (evRead_le s).trans (ih _ _ _)
+    · simp only
+      split
+      · exact hs.trans ((evRead_le _).trans (ih _ _ _))
+      · exact hs
     · exact FlagsLe.refl s
 
 /-- what the read side maintains: everything that arrived is either consumed by inflate, waiting
@@ -722,51 +816,62 @@ theorem evRead_ok (HI : HInflate C) (s : St C) (allIn del : Bytes) (hi : RInv HI
     · intro hg; have := hg.1; simp [disconnect] at this
     · intro hg; have := hg.1; simp [disconnect] at this
 
-/-- nothing left to read: the lower transport is drained and the decompression buffer is empty -/
-def Quiet (s : St C) : Prop := s.inq = [] ∧ s.inPend = none
+theorem rinv_of_rd (HI : HInflate C) (s t : St C) (allIn del : Bytes) (h : rd t = rd s)
+    (hi : RInv HI s allIn del) : RInv HI t allIn del := by
+  simp only [rd, Prod.mk.injEq] at h
+  obtain ⟨h1, h2, h3, _, h5⟩ := h
+  exact ⟨by rw [h1]; exact hi.oki, by rw [h1, h2, h3]; exact hi.input, by rw [h1]; exact hi.output,
+    by rw [h1, h5]; exact hi.done⟩
 
-theorem readLoop_ok (HI : HInflate C) : ∀ (fuel : Nat) (s : St C) (acc : Bytes) (rets : List Int)
-    (allIn del : Bytes), RInv HI s allIn del → Good (readLoop fuel s acc rets).1 →
-    ∃ x, (readLoop fuel s acc rets).2.1 = acc ++ x ∧ RInv HI (readLoop fuel s acc rets).1 allIn (del ++ x) ∧
-      Quiet (readLoop fuel s acc rets).1 := by
+theorem readLoop_ok (HI : HInflate C) (wfuel : Nat) : ∀ (fuel : Nat) (s : St C) (acc : Bytes)
+    (rets : List Int) (allIn del : Bytes), RInv HI s allIn del →
+    Good (readLoop wfuel fuel s acc rets).1 →
+    ∃ x, (readLoop wfuel fuel s acc rets).2.1 = acc ++ x ∧
+      RInv HI (readLoop wfuel fuel s acc rets).1 allIn (del ++ x) ∧
+      (readLoop wfuel fuel s acc rets).1.inq = [] := by
   intro fuel
   induction fuel with
   | zero => intro s acc rets allIn del _ hg; have := hg.2; simp [readLoop] at this
   | succ fuel ih =>
     intro s acc rets allIn del hi hg
-    have hgs : Good s := Good.of_le (readLoop_le _ _ _ _) hg
+    have hgs : Good s := Good.of_le (readLoop_le _ _ _ _ _) hg
     revert hg
     unfold readLoop
     split
-    · intro hg
-      have hge : Good (evRead s).1 := Good.of_le (readLoop_le _ _ _ _) hg
-      have h1 := evRead_ok HI s allIn del hi hge
-      obtain ⟨x, hx, hinv, hq⟩ := ih _ (acc ++ (evRead s).2.2) (rets ++ [(evRead s).2.1]) allIn _ h1 hg
-      refine ⟨(evRead s).2.2 ++ x, ?_, ?_, hq⟩
-      · rw [hx, List.append_assoc]
-      · rw [← List.append_assoc]; exact hinv
+    · simp only
+      have hrd : rd (runOnceSend wfuel { s with sched := [] }) = rd s :=
+        (runOnceSend_rd wfuel _).trans rfl
+      have hi' := rinv_of_rd HI s _ allIn del hrd hi
+      split
+      · intro hg
+        have hge : Good (evRead (runOnceSend wfuel { s with sched := [] })).1 :=
+          Good.of_le (readLoop_le _ _ _ _ _) hg
+        have h1 := evRead_ok HI _ allIn del hi' hge
+        obtain ⟨x, hx, hinv, hq⟩ := ih _ (acc ++ (evRead (runOnceSend wfuel { s with sched := [] })).2.2)
+          (rets ++ [(evRead (runOnceSend wfuel { s with sched := [] })).2.1]) allIn _ h1 hg
+        refine ⟨(evRead (runOnceSend wfuel { s with sched := [] })).2.2 ++ x, ?_, ?_, hq⟩
+        · rw [hx, List.append_assoc]
+        · rw [← List.append_assoc]; exact hinv
+      · rename_i hdis
+        intro hg
+        exact absurd hg.1 hdis
     · rename_i hcond
       intro _
       refine ⟨[], by simp, by simpa using hi, ?_⟩
-      simp only [hgs.1, Bool.true_and, Bool.or_eq_true, not_or, readable, pending] at hcond
-      obtain ⟨h1, h2⟩ := hcond
-      constructor
-      · simp at h1
-        exact List.isEmpty_iff.mp (by simpa using h1.1)
-      · cases h : s.inPend with
-        | none => rfl
-        | some p => simp [h] at h2
+      simp only [hgs.1, Bool.true_and, readable, Bool.or_eq_true, not_or] at hcond
+      simp at hcond
+      exact List.isEmpty_iff.mp (by simpa using hcond.1)
 
 /-- the fold of `rxAll`, from an arbitrary accumulator -/
-def rxFold (fuel : Nat) (p : St C × Bytes) (frags : List Bytes) : St C × Bytes :=
-  frags.foldl (fun p f => let r := rxFragment fuel p.1 f; (r.1, p.2 ++ r.2.1)) p
+def rxFold (wfuel fuel : Nat) (p : St C × Bytes) (frags : List Bytes) : St C × Bytes :=
+  frags.foldl (fun p f => let r := rxFragment wfuel fuel p.1 f; (r.1, p.2 ++ r.2.1)) p
 
-theorem rxFold_cons (fuel : Nat) (p : St C × Bytes) (f : Bytes) (rest : List Bytes) :
-    rxFold fuel p (f :: rest) =
-      rxFold fuel ((rxFragment fuel p.1 f).1, p.2 ++ (rxFragment fuel p.1 f).2.1) rest := rfl
+theorem rxFold_cons (wfuel fuel : Nat) (p : St C × Bytes) (f : Bytes) (rest : List Bytes) :
+    rxFold wfuel fuel p (f :: rest) =
+      rxFold wfuel fuel ((rxFragment wfuel fuel p.1 f).1, p.2 ++ (rxFragment wfuel fuel p.1 f).2.1) rest := rfl
 
-theorem rxFold_le (fuel : Nat) : ∀ (frags : List Bytes) (p : St C × Bytes),
-    FlagsLe p.1 (rxFold fuel p frags).1 := by
+theorem rxFold_le (wfuel fuel : Nat) : ∀ (frags : List Bytes) (p : St C × Bytes),
+    FlagsLe p.1 (rxFold wfuel fuel p frags).1 := by
   intro frags
   induction frags with
   | nil => intro p; exact FlagsLe.refl _
@@ -775,29 +880,29 @@ theorem rxFold_le (fuel : Nat) : ∀ (frags : List Bytes) (p : St C × Bytes),
     rw [rxFold_cons]
     refine FlagsLe.trans ?_ (ih _)
     unfold rxFragment
-    exact FlagsLe.trans (t := { p.1 with inq := p.1.inq ++ f }) ⟨by simp, by simp⟩ (readLoop_le _ _ _ _)
+    exact FlagsLe.trans (t := { p.1 with inq := p.1.inq ++ f }) ⟨by simp, by simp⟩ (readLoop_le _ _ _ _ _)
 
-theorem rxFold_ok (HI : HInflate C) (fuel : Nat) : ∀ (frags : List Bytes) (p : St C × Bytes)
-    (allIn : Bytes), RInv HI p.1 allIn p.2 → Quiet p.1 → Good (rxFold fuel p frags).1 →
-    RInv HI (rxFold fuel p frags).1 (allIn ++ frags.flatten) (rxFold fuel p frags).2 ∧
-    Quiet (rxFold fuel p frags).1 := by
+theorem rxFold_ok (HI : HInflate C) (wfuel fuel : Nat) : ∀ (frags : List Bytes) (p : St C × Bytes)
+    (allIn : Bytes), RInv HI p.1 allIn p.2 → p.1.inq = [] → Good (rxFold wfuel fuel p frags).1 →
+    RInv HI (rxFold wfuel fuel p frags).1 (allIn ++ frags.flatten) (rxFold wfuel fuel p frags).2 ∧
+    (rxFold wfuel fuel p frags).1.inq = [] := by
   intro frags
   induction frags with
   | nil => intro p allIn hi hq _; simpa [rxFold] using ⟨hi, hq⟩
   | cons f rest ih =>
     intro p allIn hi hq hg
     rw [rxFold_cons] at hg ⊢
-    have hg1 : Good (rxFragment fuel p.1 f).1 := Good.of_le (rxFold_le fuel rest _) hg
+    have hg1 : Good (rxFragment wfuel fuel p.1 f).1 := Good.of_le (rxFold_le wfuel fuel rest _) hg
     have hi1 : RInv HI { p.1 with inq := p.1.inq ++ f } (allIn ++ f) p.2 := by
       refine ⟨hi.oki, ?_, hi.output, hi.done⟩
       show HI.cons p.1.zi ++ (p.1.inPend.getD [] ++ (p.1.inq ++ f)) = allIn ++ f
       rw [← hi.input]
       simp [List.append_assoc]
-    obtain ⟨x, hx, hinv, hq1⟩ := readLoop_ok HI fuel _ [] [] (allIn ++ f) p.2 hi1 hg1
-    have h2 := ih ((rxFragment fuel p.1 f).1, p.2 ++ (rxFragment fuel p.1 f).2.1) (allIn ++ f)
+    obtain ⟨x, hx, hinv, hq1⟩ := readLoop_ok HI wfuel fuel _ [] [] (allIn ++ f) p.2 hi1 hg1
+    have h2 := ih ((rxFragment wfuel fuel p.1 f).1, p.2 ++ (rxFragment wfuel fuel p.1 f).2.1) (allIn ++ f)
       (by
-        show RInv HI (rxFragment fuel p.1 f).1 (allIn ++ f) (p.2 ++ (rxFragment fuel p.1 f).2.1)
-        have : (rxFragment fuel p.1 f).2.1 = x := by
+        show RInv HI (rxFragment wfuel fuel p.1 f).1 (allIn ++ f) (p.2 ++ (rxFragment wfuel fuel p.1 f).2.1)
+        have : (rxFragment wfuel fuel p.1 f).2.1 = x := by
           unfold rxFragment; rw [hx]; simp
         rw [this]; exact hinv)
       hq1 hg
@@ -808,20 +913,27 @@ theorem init_rinv (HI : HInflate C) (dr : Bool) : RInv HI (init C dr) [] [] :=
    fun _ => by simp [init, HI.init_cons, HI.init_prod, HI.plain_nil]⟩
 
 /-- however the compressed bytes are fragmented: if the event loop is still connected after the
-    last fragment and the last inflate call had room left, the parser got exactly the plaintext of
-    everything that arrived -/
-theorem read_ok (HI : HInflate C) (dr : Bool) (fuel : Nat) (frags : List Bytes)
-    (hg : Good (rxAll fuel (init C dr) frags).1)
-    (hd : (rxAll fuel (init C dr) frags).1.readDone = true) :
-    (rxAll fuel (init C dr) frags).2 = HI.plain frags.flatten := by
-  have h := rxFold_ok HI fuel frags (init C dr, []) [] (init_rinv HI dr) ⟨rfl, rfl⟩ hg
+    last fragment, nothing is left in the decompression buffer and the last inflate call had room
+    left, the parser got exactly the plaintext of everything that arrived -/
+theorem read_ok (HI : HInflate C) (dr : Bool) (wfuel fuel : Nat) (frags : List Bytes)
+    (hg : Good (rxAll wfuel fuel (init C dr) frags).1)
+    (hp : pending (rxAll wfuel fuel (init C dr) frags).1 = false)
+    (hd : (rxAll wfuel fuel (init C dr) frags).1.readDone = true) :
+    (rxAll wfuel fuel (init C dr) frags).2 = HI.plain frags.flatten := by
+  have h := rxFold_ok HI wfuel fuel frags (init C dr, []) [] (init_rinv HI dr) rfl hg
   obtain ⟨hi, hq⟩ := h
   have hin := hi.input
-  rw [hq.1, hq.2] at hin
+  have hpn : (rxFold wfuel fuel (init C dr, []) frags).1.inPend = none := by
+    have hp' : pending (rxFold wfuel fuel (init C dr, []) frags).1 = false := hp
+    unfold pending at hp'
+    cases hh : (rxFold wfuel fuel (init C dr, []) frags).1.inPend with
+    | none => rfl
+    | some p => rw [hh] at hp'; simp at hp'
+  rw [hq, hpn] at hin
   simp only [Option.getD_none, List.append_nil, List.nil_append] at hin
   have hout := hi.output
   have hdone := hi.done hd
-  show (rxFold fuel (init C dr, []) frags).2 = _
+  show (rxFold wfuel fuel (init C dr, []) frags).2 = _
   rw [← hout, hdone, hin]
 
 end Strophe.Lemmas.Compression
